@@ -84,6 +84,7 @@ BOUNDS = {
         "sources": ["code", "sdl"],
         "first_operation": "full menu (103): every single type / field / input field / directive hidden + 4 pairs, stacked with camel case, clone, camel, 13 extension documents (7 adding built-in typed members, 6 adding members typed by existing enum / input / object / interface / union / scalar types, bare and wrapped, to interfaces + implementers, objects, input objects, unions, enums), directives, fix",
         "second_operation": "representative menu: one operation per operation kind, hide-type once per kind of type",
+        "type_map_order": "every one-operation history again on sources whose last registered type is an enum / custom scalar (both routes) / input object / interface / union (constructor route)",
     },
     "thorough": {
         "sequence_length": 3,
@@ -142,6 +143,16 @@ def cases(tier):
         n = len(S.menu(S.source(kind), tier))
         for i in range(n):
             yield {"src": kind, "first": i, "depth": b["sequence_length"], "tier": tier}
+    # type-map order axis: the same menu as one-operation histories on sources whose LAST registered type is
+    # an enum / custom scalar / input object / interface / union (the base sources end in an object type)
+    for tail in S.TAIL_KINDS:
+        for kind in b["sources"]:
+            if kind == "sdl" and tail not in ("enum", "scalar"):
+                continue  # both routes for the leaf kinds, constructor route for the others
+            src = "%s:tail=%s" % (kind, tail)
+            n = len(S.menu(S.source(src), "quick"))
+            for i in range(n):
+                yield {"src": src, "first": i, "depth": 1, "tier": "quick"}
 
 
 def representatives(sm, menu):
@@ -555,7 +566,7 @@ def run_history(kind, history, st=None, check_last=True):
                         out.append(("stale-memo:result:%s" % fam, "after %s: %s" % (op, digest["derived"]["memo"])))
                     # the directive literal probes run for one-operation histories; longer histories are
                     # tied to those by the differential oracle (result equal to the pristine-source result)
-                    out.extend(check_result(op, pm, pred, result, schema, st, kind, before, probe_directives=len(history) == 1))
+                    out.extend(check_result(op, pm, pred, result, schema, st, kind, before, probe_directives=len(history) == 1 and ":tail=" not in kind))
             # history independence: same result as on a pristine source
             if pre_consistent and len(history) > 1:
                 ref_history = [o for o in history[:-1] if o["op"] in S.IN_PLACE] + [op]
@@ -661,6 +672,9 @@ def explore(case, st):
         return new and not cons
 
     run([first])
+    if depth < 2:
+        st.mx("sequence_length_completed", depth)
+        return out
     for op2 in second:
         if st.out_of_time():
             return out
